@@ -7,6 +7,7 @@ import GdcVerif.Lemmas.J2kProgressionExit
 import GdcVerif.Lemmas.JpegAlloc
 import GdcVerif.Lemmas.J2kTileClamp
 import GdcVerif.Lemmas.J2kPacketBodyAlloc
+import GdcVerif.Lemmas.C09MakeSites
 /-!
   C09 — decoding ends within time/memory bounded by input length and declared image size.
 
@@ -266,3 +267,17 @@ example : decRLCPx 2 2 1 (fun _ r => if r = 1 then [0, 1] else []) =
     [(0, 1, 0, 0), (0, 1, 0, 1), (1, 1, 0, 0), (1, 1, 0, 1)] := by decide
 
 end J2kProg
+
+/-! ### the sized `make`s of the decode path (generated table `Gen.Facts.decodeMakes`, gofacts/allocs.go) -/
+namespace C09Makes
+
+/-- (14) every `make` of the decode path whose size expression is a product of two or more non-constant
+    factors (local variables resolved) is one of the reviewed expressions of Lemmas/C09MakeSites.lean —
+    each bounded by the frame dimensions, a block extent or a code-block grid, none a product of
+    header-declared counts; regenerated from the source on every run -/
+theorem c09_decode_make_products : Gen.Facts.decodeMakeProducts = reviewed.map (fun r => (r.1, r.2.1, r.2.2.1)) ∧
+    (∀ r ∈ reviewed, r.2.2.2 = "dims" ∨ r.2.2.2 = "block" ∨ r.2.2.2 = "grid") ∧
+    Gen.Facts.decodeMakes.length ≥ 100 ∧ Gen.Facts.decodePathFunctions ≥ 200 :=
+  ⟨c09_make_products_reviewed, c09_no_header_count_product, c09_makes_scanned⟩
+
+end C09Makes
